@@ -13,6 +13,7 @@ from physt._construction import (
     extract_1d_array,
     extract_weights,
 )
+from physt._util import real_edges
 from physt.histogram_base import HistogramBase
 from physt.statistics import INVALID_STATISTICS, Statistics
 
@@ -98,12 +99,13 @@ class ObjectWithBinning(ABC):
     @property
     def bin_centers(self) -> np.ndarray:
         """Centers of all bins."""
-        return (self.bin_left_edges + self.bin_right_edges) / 2
+        # (In floating point: integer edges would be added in their own, possibly narrow, type)
+        return (real_edges(self.bin_left_edges) + real_edges(self.bin_right_edges)) / 2
 
     @property
     def bin_widths(self) -> np.ndarray:
         """Widths of all bins."""
-        return self.bin_right_edges - self.bin_left_edges
+        return real_edges(self.bin_right_edges) - real_edges(self.bin_left_edges)
 
     @property
     def total_width(self) -> float:
